@@ -213,6 +213,7 @@ def run(args):
     harness = []
     try:
         cases = [(args.seed, i, tmpdir, 'scanner') for i in range(n)] + [(args.seed, 100000 + k, tmpdir, f) for k, f in enumerate(repo_files())]
+        cases = core.replay_cases(args, cases, lambda sd, i, mode: (sd, i, tmpdir, mode))
         B = 4
         batches = [cases[k:k + B] for k in range(0, len(cases), B)]
         for _, b, results in core.forkmap(lambda bb: [run_case(c) for c in bb], batches, isolated=False):
